@@ -163,3 +163,20 @@ Theorem C17_resource_url_decodes : forall c e names els o u,
     /\ (els <> [] -> exists ts, spec_elements els = Some ts /\ decode_segments sfx = Some ts).
 Proof. exact resource_url_decodes. Qed.
 Print Assumptions C17_resource_url_decodes.
+
+(* static_url / current_route_url reduce to route_url, so C17_route_url_decodes applies to them *)
+Theorem C17_static_url_is_route_url : forall e rs regs path o kw u,
+  static_url e rs regs path o kw = Ok u ->
+  exists sub rname, find_reg regs path = Some (sub, rname)
+    /\ route_url [] e rs rname [] o (dset static_subpath_key (KScalar (PStr sub)) kw) = Ok u
+    /\ join_elements_c [] [] = join_elements [].
+Proof. exact static_url_is_route_url. Qed.
+Print Assumptions C17_static_url_is_route_url.
+
+Theorem C17_current_route_url_is_route_url : forall c e rs rname matched md gt els o kw u,
+  current_route_url c e rs rname matched md gt els o kw = Ok u ->
+  exists name, (rname = Some name \/ (rname = None /\ matched = Some name))
+    /\ route_url c e rs name els
+         (match o_query o with Some _ => o | None => set_query o (QPairs gt) end) (dupdate md kw) = Ok u.
+Proof. exact current_route_url_is_route_url. Qed.
+Print Assumptions C17_current_route_url_is_route_url.
